@@ -8,12 +8,86 @@
 #include <AIToolbox/Utils/Prune.hpp>
 #include <AIToolbox/Utils/Polytope.hpp>
 #include <AIToolbox/Utils/LP.hpp>
+#include <lpsolve/lp_lib.h>
 #include <algorithm>
 #include <numeric>
+#include <map>
+#include <set>
 
 using namespace verif;
 using namespace AIToolbox;
 using VList = std::vector<Vector>;
+
+// ------------------------------------------------------------------ lp_solve call recorder
+// Every call src/Utils/LP/LpSolveWrapper.cpp makes into lp_solve that changes the LP (make_lp, add_constraint,
+// del_constraint, resize_lp, set_obj, set_obj_fn, set_maxim/minim, set_unbounded, delete_lp) is intercepted at link
+// time (-Wl,--wrap=...), mirrored per lprec and passed through unchanged; at every solve() made while `g_rec.on` the
+// mirrored LP (exactly what lp_solve was given: coefficients AFTER the wrapper touched them), lp_solve's result code,
+// objective and variables are snapshotted.  The Lean driver compares the snapshots with the LP its model poses.
+struct RecRow { std::vector<double> coef; int rel; double rhs; };
+struct RecLP { int ncols = 0; std::vector<RecRow> rows; std::vector<double> obj; int maxim = -1; std::set<int> unbounded; };
+struct Snap { RecLP lp; int result = -99; double objective = 0; std::vector<double> vars; };
+struct Recorder { bool on = false; std::map<lprec *, RecLP> lps; std::vector<Snap> snaps; } g_rec;
+
+extern "C" {
+    lprec * __real_make_lp(int, int);
+    void __real_delete_lp(lprec *);
+    unsigned char __real_add_constraint(lprec *, REAL *, int, REAL);
+    unsigned char __real_del_constraint(lprec *, int);
+    unsigned char __real_resize_lp(lprec *, int, int);
+    unsigned char __real_set_obj(lprec *, int, REAL);
+    unsigned char __real_set_obj_fn(lprec *, REAL *);
+    void __real_set_minim(lprec *);
+    void __real_set_maxim(lprec *);
+    unsigned char __real_set_unbounded(lprec *, int);
+    int __real_solve(lprec *);
+
+    lprec * __wrap_make_lp(int rows, int cols) {
+        lprec * lp = __real_make_lp(rows, cols);
+        RecLP r; r.ncols = cols; r.obj.assign(cols, 0.0); g_rec.lps[lp] = std::move(r);
+        return lp;
+    }
+    void __wrap_delete_lp(lprec * lp) { g_rec.lps.erase(lp); __real_delete_lp(lp); }
+    unsigned char __wrap_add_constraint(lprec * lp, REAL * row, int type, REAL rh) {
+        auto & r = g_rec.lps[lp];
+        RecRow rr; rr.rel = type; rr.rhs = rh; rr.coef.assign(row + 1, row + 1 + r.ncols);
+        r.rows.push_back(std::move(rr));
+        return __real_add_constraint(lp, row, type, rh);
+    }
+    unsigned char __wrap_del_constraint(lprec * lp, int n) {
+        auto & r = g_rec.lps[lp];
+        if (n >= 1 && (size_t)n <= r.rows.size()) r.rows.erase(r.rows.begin() + (n - 1));
+        return __real_del_constraint(lp, n);
+    }
+    unsigned char __wrap_resize_lp(lprec * lp, int rows, int cols) {
+        auto & r = g_rec.lps[lp];
+        if (rows >= 0 && (size_t)rows < r.rows.size()) r.rows.resize(rows);
+        if (cols != r.ncols) { r.ncols = cols; r.obj.resize(cols, 0.0); for (auto & x : r.rows) x.coef.resize(cols, 0.0); }
+        return __real_resize_lp(lp, rows, cols);
+    }
+    unsigned char __wrap_set_obj(lprec * lp, int col, REAL v) {
+        auto & r = g_rec.lps[lp]; if (col >= 1 && col <= r.ncols) r.obj[col - 1] = v;
+        return __real_set_obj(lp, col, v);
+    }
+    unsigned char __wrap_set_obj_fn(lprec * lp, REAL * row) {
+        auto & r = g_rec.lps[lp]; r.obj.assign(row + 1, row + 1 + r.ncols);
+        return __real_set_obj_fn(lp, row);
+    }
+    void __wrap_set_minim(lprec * lp) { g_rec.lps[lp].maxim = 0; __real_set_minim(lp); }
+    void __wrap_set_maxim(lprec * lp) { g_rec.lps[lp].maxim = 1; __real_set_maxim(lp); }
+    unsigned char __wrap_set_unbounded(lprec * lp, int col) { g_rec.lps[lp].unbounded.insert(col - 1); return __real_set_unbounded(lp, col); }
+    int __wrap_solve(lprec * lp) {
+        const int res = __real_solve(lp);
+        if (g_rec.on) {
+            Snap s; s.lp = g_rec.lps[lp]; s.result = res; s.objective = get_objective(lp);
+            REAL * vp = nullptr; get_ptr_variables(lp, &vp);
+            if (vp) s.vars.assign(vp, vp + s.lp.ncols);
+            g_rec.snaps.push_back(std::move(s));
+        }
+        return res;
+    }
+}
+struct RecScope { RecScope() { g_rec.snaps.clear(); g_rec.on = true; } ~RecScope() { g_rec.on = false; } };
 
 // ------------------------------------------------------------------ printing
 static void putVec(Line & l, const Vector & v) { for (long i = 0; i < v.size(); ++i) l << (double)v[i]; }
@@ -22,6 +96,16 @@ static void putOptVec(Line & l, const std::optional<Vector> & v) {
     if (!v) { l << (size_t)0; return; }
     l << (size_t)v->size(); putVec(l, *v);
 }
+
+// one recorded solve: the LP as handed to lp_solve, then lp_solve's answer
+static void putSnap(Line & l, const Snap & s) {
+    l << s.lp.ncols << (size_t)s.lp.rows.size() << s.lp.maxim << (size_t)s.lp.unbounded.size();
+    for (int c : s.lp.unbounded) l << c;
+    for (double x : s.lp.obj) l << x;
+    for (auto & r : s.lp.rows) { for (double x : r.coef) l << x; l << r.rel << r.rhs; }
+    l << s.result << s.objective << (size_t)s.vars.size(); for (double x : s.vars) l << x;
+}
+static void putSnaps(Line & l, const std::vector<Snap> & ss) { l << (size_t)ss.size(); for (auto & s : ss) putSnap(l, s); }
 
 // ------------------------------------------------------------------ certificates (untrusted finders)
 // Farkas multipliers: lambda >= 0, sum 1, minimising t with  sum_i lambda_i g_i + t >= r  componentwise.
@@ -130,6 +214,38 @@ static VList genCornerTie(Rng & rng, size_t S, bool & uselessIncluded) {
     return vs;
 }
 
+// Mixed magnitudes INSIDE one set (round 3): entries >= 2^17 next to order-one entries, and vectors only the witness LP can
+// find (best strictly inside a face, at no corner).  kind 0: one huge state; 1: an opposed huge pair (+H,-H)/(-H,+H) with
+// flat vectors between; 2: every vector huge in a different state; 3: huge, order-one and tiny (2^-20) entries together.
+static VList genMixed(Rng & rng, size_t S, size_t n, int & kind, int & expo) {
+    kind = (int)rng.below(4); expo = 17 + (int)rng.below(rng.coin(1, 4) ? 12 : 8);
+    const double H = std::ldexp(1.0, expo);
+    auto small = [&]() { Vector v(S); for (size_t s = 0; s < S; ++s) v[s] = quarter(rng, -3, 3); return v; };
+    VList vs;
+    const size_t h = rng.below(S), h2 = (h + 1 + rng.below(S > 1 ? S - 1 : 1)) % S;
+    auto midface = [&]() {   // the mean of two members lifted by 1/4..5/4: above both wherever they tie
+        if (vs.size() < 2) return;
+        const Vector & a = vs[rng.below(vs.size())], & b = vs[rng.below(vs.size())];
+        Vector w = (a + b) / 2.0; w.array() += 0.25 + quarter(rng, 0, 1);
+        if (rng.coin(1, 3)) w[h] = std::min(a[h], b[h]);
+        vs.push_back(w);
+    };
+    while (vs.size() < n) {
+        Vector v = small();
+        switch (kind) {
+            case 0: v[h] = H * (double)rng.range(-3, 3); break;
+            case 1: { const double c = (double)rng.range(1, 3) * (rng.coin() ? 1.0 : -1.0); v[h] = H * c; if (S > 1) v[h2] = -H * c;
+                      if (rng.coin(1, 3)) { v[h] = quarter(rng, -2, 2); if (S > 1) v[h2] = quarter(rng, -2, 2); } break; }
+            case 2: v[vs.size() % S] = H * (double)rng.range(-2, 3); break;
+            default: v[h] = H * (double)rng.range(-3, 3); if (S > 1) v[h2] = 0x1p-20 * (double)rng.range(-8, 8); break;
+        }
+        vs.push_back(v);
+        if (vs.size() < n && rng.coin(2, 5)) midface();
+    }
+    for (size_t i = vs.size(); i > 1; --i) std::swap(vs[i - 1], vs[rng.below(i)]);
+    return vs;
+}
+
 // dyadic belief with exact sum 1 (denominator 2^bits), zeros with probability pz per coordinate
 static Vector genBelief(Rng & rng, size_t S, unsigned bits, unsigned pzNum) {
     const uint64_t D = 1ull << bits;
@@ -222,12 +338,31 @@ static size_t prunerReplica(size_t S, VList & arr, std::vector<OracleCall> & tra
     return std::distance(begin, bound);
 }
 
-static void emit_prune(const VList & in, size_t S) {
+// `warm`: a set pruned FIRST with the same Pruner object (its result is discarded): the object keeps its LP between calls (the
+// solvers of the library hold one Pruner for all their calls), and the second result must not depend on the first.  When it
+// does, a `reuse` line carries both results and the `prune` line below describes the fresh object's call.
+static void emit_prune(const VList & in, size_t S, const VList * warm = nullptr) {
     { Line pre; pre << "#in" << "prune" << S << (size_t)in.size(); putVecs(pre, in); pre.emit(); }   // replay aid if the call below hangs or aborts
     VList arr = in;
-    Pruner pr(S);
-    auto it = pr(arr.begin(), arr.end());
-    const size_t e = (size_t)std::distance(arr.begin(), it);
+    std::vector<Snap> snaps;
+    size_t e;
+    bool usedOk = false;
+    if (warm) {
+        Pruner pr(S);
+        { VList w = *warm; pr(w.begin(), w.end()); }
+        VList used = in; std::vector<Snap> usnaps; size_t ue;
+        { RecScope rs; auto it = pr(used.begin(), used.end()); ue = (size_t)std::distance(used.begin(), it); usnaps = g_rec.snaps; }
+        VList fresh = in; Pruner pf(S); const size_t fe = (size_t)std::distance(fresh.begin(), pf(fresh.begin(), fresh.end()));
+        usedOk = ue == fe; for (size_t i = 0; usedOk && i < used.size(); ++i) usedOk = used[i] == fresh[i];
+        std::printf("#stat prune_on_a_used_pruner 1\n#stat used_pruner_%s 1\n", usedOk ? "same_result" : "different_result");
+        Line o; o << "C12" << "reuse" << S << (size_t)in.size() << (size_t)warm->size(); putVecs(o, in); putVecs(o, *warm);
+        o << "|" << ue; putVecs(o, used); o << fe; putVecs(o, fresh); o.emit();
+        if (usedOk) { arr = used; e = ue; snaps = usnaps; }
+    }
+    if (!usedOk) {
+        Pruner pr(S);
+        RecScope rs; auto it = pr(arr.begin(), arr.end()); e = (size_t)std::distance(arr.begin(), it); snaps = g_rec.snaps;
+    }
     VList arr2 = in; std::vector<OracleCall> trace;
     const size_t e2 = prunerReplica(S, arr2, trace);
     bool same = e2 == e && arr2.size() == arr.size();
@@ -253,7 +388,22 @@ static void emit_prune(const VList & in, size_t S) {
         need.push_back(std::move(c));
     }
     putCerts(o, need);
+    // every LP the real Pruner handed to lp_solve, in call order, with lp_solve's answers
+    putSnaps(o, snaps);
     o.emit();
+}
+
+// ------------------------------------------------------------------ op: WitnessLP used directly
+// reset / allocate / addOptimalRow* / findWitness on a fresh object (and a second question on the same object, so that the
+// pushed witness row must have been popped): `wlp S k best v v2 | answer answer2 snaps`
+static void emit_wlp(const VList & best, const Vector & v, const Vector & v2, size_t S) {
+    { Line pre; pre << "#in" << "wlp" << S << (size_t)best.size(); putVecs(pre, best); putVec(pre, v); pre.emit(); }
+    WitnessLP lp(S);
+    lp.reset(); lp.allocate(best.size() + 1);
+    std::optional<Vector> a1, a2; std::vector<Snap> snaps;
+    { RecScope rs; for (auto & g : best) lp.addOptimalRow(g); a1 = lp.findWitness(v); a2 = lp.findWitness(v2); snaps = g_rec.snaps; }
+    Line o; o << "C12" << "wlp" << S << (size_t)best.size(); putVecs(o, best); putVec(o, v); putVec(o, v2);
+    o << "|"; putOptVec(o, a1); putOptVec(o, a2); putSnaps(o, snaps); o.emit();
 }
 
 // ------------------------------------------------------------------ ops: interpolation
@@ -288,13 +438,17 @@ static void emit_interp(const char * op, const Vector & point, const Surface & s
     for (size_t s = 0; s < S; ++s) for (size_t a = 0; a < A; ++a) o << (double)sf.ubQ(s, a);
     putVecs(o, sf.ubV.first); for (double v : sf.ubV.second) o << v;
     o << "|";
+    std::vector<Snap> snaps;
     try {
+        RecScope rs;
         auto [val, w] = (op[0] == 'l') ? LPInterpolation(point, sf.ubQ, sf.ubV) : sawtoothInterpolation(point, sf.ubQ, sf.ubV);
         o << "ok" << val << (size_t)w.size(); putVec(o, w);
-    } catch (const std::exception & e) { o << errClass(e); }
+        snaps = g_rec.snaps;
+    } catch (const std::exception & e) { o << errClass(e); snaps = g_rec.snaps; }
     const Vector cv = sf.ubQ.rowwise().maxCoeff();
     putOptVec(o, dualCert(point, cv, sf.ubV));
     putOptVec(o, primalCert(point, cv, sf.ubV));
+    putSnaps(o, snaps);       // the LP LPInterpolation handed to lp_solve (none on the shortcut branches and for sawtooth)
     o.emit();
 }
 
@@ -335,7 +489,7 @@ static bool sawRepaired() {
 
 // ------------------------------------------------------------------ fixed witness cases (lowest indices)
 static Vector vec(std::initializer_list<double> l) { Vector v(l.size()); size_t i = 0; for (double x : l) v[i++] = x; return v; }
-static const long kFixed = 24;
+static const long kFixed = 27;
 static bool g_thorough = false;
 // cases that exercise sawtoothInterpolation where no stored point helps (the as-found source indexes / reads
 // what is not there): kept in their own cases so a crash is attributed exactly
@@ -444,6 +598,37 @@ static void fixed_case(long idx) {
         for (auto & x : v) x *= 0x1p-10;
         emit_prune(v, 6);
         break; }
+    case 24: { // mixed magnitudes inside one set (the regime of WitnessLP's row scaling): vectors only the witness LP finds
+        for (int k : {17, 20, 24, 28}) {
+            const double H = std::ldexp(1.0, k);
+            VList a{vec({H, -H}), vec({-H, H}), vec({0.5, 0.5})};                      // flat vector between an opposed huge pair: needed at (1/2,1/2)
+            emit_prune(a, 2); emit_wlp({a[0], a[1]}, a[2], a[2], 2);
+            VList b{vec({H, -1, -1}), vec({-H, 4, 0}), vec({-H, 0, 2}), vec({-H, 2.25, 1.25})};   // needed only around (0,1/3,2/3): no corner, no midpoint
+            emit_prune(b, 3); emit_wlp({b[0], b[1], b[2]}, b[3], b[1], 3);
+            VList c{vec({-H, 4, 0}), vec({H, -1, -1}), vec({-H, 2.25, 1.25}), vec({-H, 0, 2}), vec({-H, 1.5, 0.75})};   // last one is covered by the others
+            emit_prune(c, 3); emit_ed(c, 3);
+            VList d{vec({3, 0, H}), vec({0, 3, H}), vec({1.75, 1.75, H}), vec({1.25, 1.25, H}), vec({-1, -1, 2 * H})};   // huge state shared: (1.75,1.75,H) needed, (1.25,1.25,H) not
+            emit_prune(d, 3);
+            VList small{vec({4, 0, 1}), vec({0, 4, 1}), vec({2.5, 2.5, 0}), vec({1, 1, 3}), vec({1.5, 1.5, 1.5})};     // order-one set on a Pruner that has just seen the huge one, and the reverse
+            emit_prune(small, 3, &b); emit_prune(b, 3, &small);
+        }
+        break; }
+    case 25: { // WitnessLP directly at the boundaries of its row scaling (first row's largest entry 2^16 | 2^17 | 2^-16 | 2^-17 | 0), no rows at all
+        for (double m : {0x1p16, 0x1.8p16, 0x1p17, 0x1.fp17, 0x1p-16, 0x1p-17, 0x1.8p-18, 0.0}) {
+            emit_wlp({vec({m, -m, 0}), vec({-m, m, 0})}, vec({m / 4, m / 4, 0}), vec({-m, -m, -1}), 3);
+            emit_wlp({vec({m, 1, 0}), vec({0, 1, m}), vec({1, 0, 1})}, vec({0.75, 0.75, 0.75}), vec({m / 2, 1, m / 2}), 3);
+        }
+        emit_wlp({}, vec({0x1p20, 1}), vec({-1, -0x1p20}), 2);
+        emit_wlp({vec({3, 1})}, vec({0x1p20, 1}), vec({1, 3}), 2);                  // the scale comes from the FIRST optimal row, not from the question
+        break; }
+    case 26: { // frozen witness of C12-witnesslp-mixed-magnitudes (found by the mixed-magnitude generator, seed 1): entries 3*2^23 next to
+               // order-one entries; (-3/4, 3*2^23, -3*2^23 + 1/4) is 1/8 above all others at (0,1/2,1/2), where the envelope of the rest is 0;
+               // lp_solve (default scaling mode 196) reports INFEASIBLE for the feasible witness LP, Pruner drops the vector
+        const double H = 0x1p23;
+        emit_wlp({vec({1.25, 3 * H, -3 * H}), vec({0.5, -3 * H, 3 * H})}, vec({-0.75, 3 * H, -3 * H + 0.25}), vec({-0.75, 3 * H, -3 * H + 0.25}), 3);
+        VList v{vec({-2.5, -2 * H, 2 * H}), vec({-2.75, -3 * H, 3 * H}), vec({-0.75, 3 * H, -3 * H + 0.25}), vec({-1, 3 * H, -3 * H}), vec({1.25, 3 * H, -3 * H}), vec({0.5, -3 * H, 3 * H})};
+        emit_prune(v, 3);
+        break; }
     case 15: { // dominates(): both clauses, boundaries
         emit_dom(vec({1, 1}), vec({1, 1})); emit_dom(vec({1, 1}), vec({1 + 0x1p-20, 1})); emit_dom(vec({1, 1}), vec({1 + 0x1p-19, 1}));
         emit_dom(vec({0x1p22, 0x1p22}), vec({0x1p22 + 0x1p-16, 0x1p22})); emit_dom(vec({-0x1p22, 1}), vec({-0x1p22 + 0x1p-16, 1}));
@@ -452,12 +637,60 @@ static void fixed_case(long idx) {
 }
 
 // ------------------------------------------------------------------ case loop
-long verif::verif_ncases(const std::string & tier) { return kFixed + (tier == "thorough" ? 12000 : 2500); }
+static long nRandom(const std::string & tier) { return tier == "thorough" ? 12000 : 2500; }
+static long nMixed(const std::string & tier) { return tier == "thorough" ? 4000 : 700; }
+long verif::verif_ncases(const std::string & tier) { return kFixed + nRandom(tier) + nMixed(tier); }
+
+static Surface genSurface(Rng & rng, size_t S, size_t A, size_t N, const Vector & query, int & shape);
+static void emit_interp(const char * op, const Vector & point, const Surface & sf);
+
+// round 3: mixed magnitudes inside one set, through Pruner, extractDominated+Pruner, incremental unions + Pruner, WitnessLP
+// directly, and the two bound routines
+static void mixed_case(Rng & rng, bool thorough) {
+    const unsigned sub = (unsigned)rng.below(10);
+    if (sub < 8) {
+        const size_t S = 2 + rng.below(5), n = 3 + rng.below(thorough ? 14 : 10);
+        int kind, expo; VList vs = genMixed(rng, S, n, kind, expo);
+        std::printf("#stat mixed_kind%d 1\n#stat mixed_expo%d 1\n#stat mixed_dim%zu 1\n", kind, expo, S);
+        if (sub < 3) { std::puts("#stat mixed_op_prune 1");
+                       if (rng.coin()) emit_prune(vs, S);
+                       else {   // the same Pruner object has just pruned a set of another magnitude (2^-10 .. 2^-30 times this one, or the reverse)
+                           VList other = vs; const double f = std::ldexp(1.0, -(10 + (int)rng.below(21))); for (auto & x : other) x *= f;
+                           if (rng.coin()) emit_prune(vs, S, &other); else emit_prune(other, S, &vs); } }
+        else if (sub < 5) {   // extractDominated, erase, Pruner (the pipeline of the exact solvers)
+            std::puts("#stat mixed_op_ed_then_prune 1");
+            emit_ed(vs, S); VList k = vs; k.erase(extractDominated(k.begin(), k.end()), k.end()); emit_prune(k, S); }
+        else if (sub < 7) {   // IncrementalPruning style: a pruned old set, new vectors, incremental domination, Pruner on the union's survivors
+            std::puts("#stat mixed_op_union 1");
+            const size_t k = 1 + rng.below(vs.size() - 1);
+            VList o(vs.begin(), vs.begin() + k), nw(vs.begin() + k, vs.end());
+            { Pruner pr(S); o.erase(pr(o.begin(), o.end()), o.end()); }
+            emit_edi(o, nw, S);
+            VList arr = o; arr.insert(arr.end(), nw.begin(), nw.end());
+            auto [a, b, c] = extractDominatedIncremental(arr.begin(), arr.begin() + o.size(), arr.end()); (void)a; (void)c;
+            arr.erase(b, arr.end()); emit_prune(arr, S); }
+        else {                // WitnessLP directly: rows = a prefix, questions = two other members
+            std::puts("#stat mixed_op_wlp 1");
+            const size_t k = 1 + rng.below(vs.size() - 1);
+            emit_wlp(VList(vs.begin(), vs.begin() + k), vs[k + rng.below(vs.size() - k)], vs[rng.below(vs.size())], S); }
+    } else {
+        const size_t S = 2 + rng.below(4), A = 1 + rng.below(3), N = 1 + rng.below(thorough ? 8 : 5);
+        const Vector query = genBelief(rng, S, 4, rng.coin() ? 0 : 3);
+        int shape; Surface sf = genSurface(rng, S, A, N, query, shape);
+        // one huge state: its corner values (all actions) and, consistently, the stored values move by p[h]*H
+        const size_t h = rng.below(S); const int expo = 17 + (int)rng.below(8); const double H = std::ldexp(1.0, expo) * (double)rng.range(1, 3) * (rng.coin() ? 1.0 : -1.0);
+        for (size_t a = 0; a < A; ++a) sf.ubQ(h, a) += H;
+        for (size_t j = 0; j < N; ++j) sf.ubV.second[j] += sf.ubV.first[j][h] * H;
+        std::printf("#stat mixed_op_interp 1\n#stat mixed_expo%d 1\n", expo);
+        emit_interp("lpi", query, sf); emit_interp("saw", query, sf);
+    }
+}
 
 void verif::verif_case(Rng & rng, long idx, const std::string & tier) {
     const bool thorough = tier == "thorough";
     g_thorough = thorough;
     if (idx < kFixed) { fixed_case(idx); return; }
+    if (idx >= kFixed + nRandom(tier)) { mixed_case(rng, thorough); return; }
     const unsigned kind = (unsigned)rng.below(10);
     if (kind < 6) {
         const size_t S = 1 + rng.below(6);
